@@ -185,9 +185,9 @@ pub open spec fn gkey_at_ok(ck: &CommitterKey, m: Seq<(usize, usize)>) -> bool {
 // challenge-weighted sums of the polynomials / blinding polynomials: sum_j xi_j p_j with xi_j the j-th squeeze
 pub open spec fn pacc(ps: Seq<&LabeledMv>, s: SS, k: nat, x: Asg) -> FS decreases k { if k == 0 { f_zero() } else { f_add(pacc(ps, s, (k - 1) as nat, x), f_mul(sp_sq_fe(sp_iter(s, (k - 1) as nat)), mve(ps[k - 1].polynomial.terms@, x))) } }
 pub open spec fn racc(sts: Seq<&Randomness>, s: SS, k: nat, x: Asg) -> FS decreases k { if k == 0 { f_zero() } else { f_add(racc(sts, s, (k - 1) as nat, x), f_mul(sp_sq_fe(sp_iter(s, (k - 1) as nat)), mve(sts[k - 1].blinding_polynomial.terms@, x))) } }
-pub open spec fn pst_open_post(ck: &CommitterKey, ps: Seq<&LabeledMv>, point: Seq<Fr>, sts: Seq<&Randomness>, s0: SS, pr: &Proof) -> bool {
+// the relation between the inputs of `open`, the challenge-weighted sums p, r, their quotient decompositions ws, hws and the proof
+pub open spec fn pst_open_rel(ck: &CommitterKey, ps: Seq<&LabeledMv>, point: Seq<Fr>, sts: Seq<&Randomness>, s0: SS, pr: &Proof, p: MvPoly, r: MvPoly, ws: Seq<MvPoly>, hws: Seq<MvPoly>) -> bool {
     let n = min(ps.len(), sts.len()); let hid = pr.random_v is Some;
-    exists|p: MvPoly, r: MvPoly, ws: Seq<MvPoly>, hws: Seq<MvPoly>| #![trigger qsum(ws, zf(point), zf(point), 0), qsum(hws, zf(point), zf(point), 0), mve(p.terms@, zf(point)), mve(r.terms@, zf(point))]
         (forall|x: Asg| #[trigger] mve(p.terms@, x) == pacc(ps, s0, n, x)) && (forall|x: Asg| #[trigger] mve(r.terms@, x) == racc(sts, s0, n, x))
         // the witnesses are an exact decomposition  p(X) - p(z) = sum_i (X_i - z_i) w_i(X)   (and the same for the blinding polynomial when hiding)
         && ws.len() == p.num_vars && (forall|x: Asg| f_sub(#[trigger] mve(p.terms@, x), mve(p.terms@, zf(point))) == qsum(ws, x, zf(point), p.num_vars as nat))
@@ -198,6 +198,32 @@ pub open spec fn pst_open_post(ck: &CommitterKey, ps: Seq<&LabeledMv>, point: Se
         && (forall|i: int| 0 <= i < pr.w@.len() ==> (#[trigger] pr.w@[i])@ == (if hid { f_add(wpart(ck, ws, i), hcomm(ck, &hws[i])) } else { wcomm(ck, &ws[i]) }))
         && (hid ==> pr.random_v->Some_0@ == mve(r.terms@, zf(point)))
 }
+pub open spec fn pst_open_post(ck: &CommitterKey, ps: Seq<&LabeledMv>, point: Seq<Fr>, sts: Seq<&Randomness>, s0: SS, pr: &Proof) -> bool {
+    exists|p: MvPoly, r: MvPoly, ws: Seq<MvPoly>, hws: Seq<MvPoly>| #![trigger qsum(ws, zf(point), zf(point), 0), qsum(hws, zf(point), zf(point), 0), mve(p.terms@, zf(point)), mve(r.terms@, zf(point))]
+        pst_open_rel(ck, ps, point, sts, s0, pr, p, r, ws, hws)
+}
+//@spec pst13_complete
+//@lemma props=C01,C15
+// C01 / C15, MarlinPST13: completeness of single-point openings as a lemma over the three contracts.  Hypotheses: the key is in trapdoor form
+// (setup is not under contract: its monomial enumeration is out of reach), the commitments are what `commit` returns (unit pst13.commit), the proof is
+// what `open` returns (unit pst13.open, relation pst_open_rel), the blinding polynomials and their quotients consist of univariate monomials (the
+// "implicit assumption" stated in the source of `open`), the claimed values are the true evaluations.  Conclusion: the pairing equation that `check`
+// is proved to decide (unit pst13.check; same relation text) holds - for polynomials with arbitrary mixed monomials, any point, hiding or not, any
+// number of polynomials, and also when the polynomials use fewer variables than the key (finding F10 was the counterexample to exactly this step).
+pub proof fn lemma_pst13_complete(ck: &CommitterKey, vk: &VerifierKey, g: FS, gm: FS, hh: FS, beta: Asg,
+        ps: Seq<&LabeledMv>, cs: Seq<&LabeledCommitment<marlin_pc::Commitment>>, sts: Seq<&Randomness>, vs: Seq<Fr>, point: Seq<Fr>, s0: SS, pr: &Proof,
+        p: MvPoly, r: MvPoly, ws: Seq<MvPoly>, hws: Seq<MvPoly>)
+    requires
+        pst_trapdoor(ck, vk, g, gm, hh, beta),
+        sts.len() == ps.len(), cs.len() == ps.len(), vs.len() == ps.len(),
+        forall|j: int| 0 <= j < ps.len() ==> pst_commit_one(ck, #[trigger] ps[j], cs[j], sts[j]) && univariate_terms(sts[j].blinding_polynomial.terms@),
+        forall|j: int| 0 <= j < ps.len() ==> (#[trigger] vs[j])@ == mve(ps[j].polynomial.terms@, zf(point)),
+        pst_open_rel(ck, ps, point, sts, s0, pr, p, r, ws, hws),
+        pr.random_v is Some ==> forall|i: int| 0 <= i < hws.len() ==> univariate_terms((#[trigger] hws[i]).terms@),
+        pr.w@.len() <= vk.beta_h@.len(), pr.w@.len() <= point.len(),
+    ensures
+        pair(pst_inner(vk, pst_cacc(cs, s0, ps.len()), pst_vacc(vs, s0, ps.len()), pr), vk.h@) == pst_rhs(vk, pr.w@, point, pr.w@.len()),   // name=pst13.complete.honest_proof_satisfies_the_verifiers_pairing_equation props=C01,C15
+{ lemma_pst13_complete_alg(ck, vk, g, gm, hh, beta, ps, cs, sts, vs, point, s0, pr, p, r, ws, hws); }
 pub struct MarlinPST13;
 impl MarlinPST13 {
 //@fn id=pst13.check_degrees_and_bounds file=poly-commit/src/marlin/marlin_pst13_pc/mod.rs scope="impl<E: Pairing, P: DenseMVPolynomial<E::ScalarField>> MarlinPST13<E, P>" name=check_degrees_and_bounds props=C17
